@@ -107,3 +107,38 @@ Proof.
   - cbn. repeat constructor; cbn; intuition discriminate.
   - intros f H. cbn in H. intuition (subst; cbn; lia).
 Qed.
+
+(* ================================================================== (G) ties to the Go source (regenerated on every build) *)
+(* (G1) conv/j2t toFlags (gen/Gen_j2tflags.v): the write options and DisallowUnknownField reach the native converter as the
+   model's option record, for every setting of all nine options *)
+From DG Require Import NativeFlags Gen_nativetypes Gen_j2tflags Check20g GenJ2tflagsProofs.
+
+Theorem C16_toFlags_denotes_wopts :
+  forall o, wopts_of_flags (toFlags o) =
+  {| w_require := toFlags_opts_WriteRequireField o; w_default := toFlags_opts_WriteDefaultField o;
+     w_optional := toFlags_opts_WriteOptionalField o; w_disallow_unknown := toFlags_opts_DisallowUnknownField o |}.
+Proof. exact toFlags_wopts. Qed.
+Print Assumptions C16_toFlags_denotes_wopts.
+
+(* DisallowUnknownField is the absence of F_ALLOW_UNKNOWN; each write option is its own bit *)
+Theorem C16_toFlags_tests :
+  forall o,
+  flag_on (toFlags o) NF_WRITE_DEFAULT = toFlags_opts_WriteDefaultField o /\
+  flag_on (toFlags o) NF_ALLOW_UNKNOWN = negb (toFlags_opts_DisallowUnknownField o) /\
+  flag_on (toFlags o) NF_VALUE_MAPPING = toFlags_opts_EnableValueMapping o /\
+  flag_on (toFlags o) NF_HTTP_MAPPING = toFlags_opts_EnableHttpMapping o /\
+  flag_on (toFlags o) NF_STRING_INT = toFlags_opts_String2Int64 o /\
+  flag_on (toFlags o) NF_WRITE_REQUIRE = toFlags_opts_WriteRequireField o /\
+  flag_on (toFlags o) NF_NO_BASE64 = toFlags_opts_NoBase64Binary o /\
+  flag_on (toFlags o) NF_WRITE_OPTIONAL = toFlags_opts_WriteOptionalField o /\
+  flag_on (toFlags o) NF_TRACE_BACK = toFlags_opts_ReadHttpValueFallback o.
+Proof. exact toFlags_tests. Qed.
+Print Assumptions C16_toFlags_tests.
+
+Theorem C16_flags_of_wopts_from_source :
+  forall w : wopts, flags_of_wopts w = toFlags (opts_of_wopts w) /\ wopts_of_flags (toFlags (opts_of_wopts w)) = w.
+Proof. intro w. split; [apply flags_of_wopts_is_toFlags | apply wopts_flags_roundtrip]. Qed.
+Print Assumptions C16_flags_of_wopts_from_source.
+
+Example ex_toFlags_wopts : toFlags (opts_of_wopts {| w_require := true; w_default := false; w_optional := true; w_disallow_unknown := true |}) = 160.
+Proof. reflexivity. Qed.
